@@ -4,12 +4,25 @@ worktree (VERIF_REPO) and record what the check printed in seeded/RESULTS.json. 
 import os, sys, json, subprocess, re, glob, time
 ROOT = os.path.dirname(os.path.dirname(os.path.abspath(__file__)))
 res_path = os.path.join(ROOT, "seeded", "RESULTS.json")
+# --shard=i/n: only properties whose number % n == i, results to seeded/RESULTS.shard<i>.json (merge with --merge)
+shard = next((a.split("=")[1] for a in sys.argv[1:] if a.startswith("--shard=")), None)
+if "--merge" in sys.argv:
+    res = json.load(open(res_path)) if os.path.exists(res_path) else {}
+    for f in sorted(glob.glob(os.path.join(ROOT, "seeded", "RESULTS.shard*.json"))):
+        res.update(json.load(open(f))); os.remove(f)
+    json.dump(res, open(res_path, "w"), indent=1, sort_keys=True)
+    print("merged", len(res)); sys.exit(0)
+if shard:
+    si, sn = map(int, shard.split("/"))
+    res_path = os.path.join(ROOT, "seeded", "RESULTS.shard%d.json" % si)
 res = json.load(open(res_path)) if os.path.exists(res_path) else {}
 want = [a for a in sys.argv[1:] if not a.startswith("--")]
 only_new = "--new" in sys.argv
 for d in sorted(glob.glob(os.path.join(ROOT, "seeded", "C*-*"))):
     sid = os.path.basename(d)
     if want and sid not in want:
+        continue
+    if shard and int(sid[1:3]) % sn != si:
         continue
     if only_new and sid in res:
         continue
